@@ -243,6 +243,8 @@ func runC18(w *World, r *Report, tier string) {
 	}
 
 	transportCloseRule(w, r, "R6")
+	r.Rule("R7", "the session's end reaches the keepalive: the channel through which the receive loop hands the server's stream close to Close is created afresh by every Connect (shared with C12.R4), so that the hand-over cannot block and recv always gets to close the quit channel")
+	streamCloseChannelFresh(w, r, "R7")
 	r.Floor("R6", 2)
 }
 
@@ -321,4 +323,49 @@ func transportCloseRule(w *World, r *Report, rule string) {
 		}
 		r.Check(bad == "" && n > 0, rule, key, w.pos(impl.Pos()), bad+": after a failed keepalive the socket stays open, the receive loop stays blocked in Read and the loss is never reported", fmt.Sprintf("%d path(s), each closes the connection or has none", n))
 	}
+}
+
+// streamCloseChannelFresh (C12.R4 #fresh-per-connection, shared as C18.R7): the channel on which the receive loop hands
+// the server's </stream:stream> to Close has room for one token. That is enough only if every connection gets a channel
+// of its own: a token left over from the previous connection makes the next hand-over block for ever — the receive
+// loop never returns, its quit channel is never closed, the keepalive of the ended session goes on.
+func streamCloseChannelFresh(w *World, r *Report, rule string) {
+	conn := w.Func("xmpp.(*XMPPTransport).Connect")
+	fCh := w.Field("xmpp.XMPPTransport.closeChan")
+	cons := "xmpp.(*XMPPTransport).Connect#closeChan-fresh-per-connection"
+	isFresh := func(in ssa.Instruction) bool {
+		st, ok := in.(*ssa.Store)
+		if !ok {
+			return false
+		}
+		fa, ok := st.Addr.(*ssa.FieldAddr)
+		if !ok || fieldOfAddr(fa) != fCh {
+			return false
+		}
+		mk, ok := origin(st.Val).(*ssa.MakeChan)
+		if !ok {
+			return false
+		}
+		k, isK := intConst(mk.Size)
+		return isK && k >= 1
+	}
+	// every way through Connect to the stream open (or to a return that is not a constructed error) creates the channel
+	isGoal := func(in ssa.Instruction) bool {
+		if c := asCall(in); c != nil && w.callKey(c) == "xmpp.XMPPTransport.StartStream" {
+			return true
+		}
+		return false
+	}
+	n := 0
+	allInstrsH(conn, func(in ssa.Instruction) {
+		if isGoal(in) {
+			n++
+		}
+	})
+	if n == 0 {
+		r.Undecided(rule, cons, w.pos(conn.Pos()), "Connect no longer opens the stream itself: where a connection's channel must exist by is not known")
+		return
+	}
+	ok, wit := mustPass(entryLoc(conn), isGoal, isFresh, nil)
+	r.Check(ok, rule, cons, w.pos(conn.Pos()), "a connection can be established without a stream-close channel of its own ("+pathString(w, wit)+"): a token left by the previous connection makes ReceivedStreamClose block, the receive loop never ends and the keepalive of the ended session keeps running", "every path to the stream open stores a fresh make(chan, ≥1)")
 }
